@@ -277,7 +277,7 @@ LAWS = [
         required=('nested-same-name', 'during-delivery:on', 'during-delivery:off', 'during-delivery:offcb', 'during-delivery:once',
                   'duplicate-subscription', 'op:once', 'op:offcb', 'impl:parser', 'impl:emitter', 'impl:emitter0', 'impl:emittert'),
         quick=4000, thorough=160000, shards=(8, 16),
-        rule='history = 3-38 top-level operations (2-6 subscriptions, then 1-8 rounds of up to 3 arbitrary operations followed by an emit) (on/once with or without context, off(name), off(name,callback), emit(name,args)) over 3 names x 5 callbacks (two of them bound methods of a host object, fetched anew for every on/once/off, so equal but not identical); '
+        rule='history = 3-38 top-level operations (2-6 subscriptions, then 1-8 rounds of up to 3 arbitrary operations followed by an emit) (on/once with or without context, off(name), off(name,callback), emit(name,args)) over 3 names (in one variant of the emitter the first name is a tuple, in another the empty string) x 5 callbacks (two of them bound methods of a host object, fetched anew for every on/once/off, so equal but not identical); '
              'each callback carries a generated script of up to 3x3 operations it performs when invoked; oracle = reference emitter run in lockstep, '
              'compared after every operation on the delivery log (callback, arguments incl. the emitted name, context; order included) and on the listener table; '
              'non-trivial = at least two listeners on one name, at least one off/once, at least two deliveries'),
